@@ -265,3 +265,40 @@ func (b *box) GoodRelock() {
 	_ = b.val
 	b.mu.RUnlock()
 }
+
+// deferred calls of functions that lock: run at every return, after the body
+
+func (b *box) bump() {
+	b.mu.Lock()
+	b.val++
+	b.mu.Unlock()
+}
+
+func (b *box) GoodDeferCall(x int) int {
+	defer b.bump()
+	if x > 0 {
+		return x
+	}
+	b.other.Lock()
+	b.other.Unlock()
+
+	return 0
+}
+
+func (b *box) BadDeferCallUnderLock(x int) int {
+	defer b.bump()
+	b.mu.Lock()
+	if x > 0 {
+		return x // bump runs with mu held: self-deadlock
+	}
+	b.mu.Unlock()
+
+	return 0
+}
+
+func (b *box) GoodDeferCallAfterDeferredUnlock() {
+	b.other.Lock()
+	defer b.other.Unlock()
+	defer b.bump() // runs first, with other held; then other is released
+	_ = b.cb
+}
